@@ -328,7 +328,7 @@ func nontrivial(prop string, e *Engine) bool {
 	case "C11":
 		return o["c11.gated_first_allocations"] > 0
 	case "C16":
-		return e.Hist.Reloads > 0
+		return o["c16.reloads_with_running_state"] > 0
 	}
 	return o["c01.bindings"] > 0
 }
